@@ -1,16 +1,16 @@
 (* What "the node and edge elements of a GraphML document" are (C19), stated on
    the document's event sequence and independently of the reader's loop
    variables:
-     doc_elems   — which events are elements of the graph: a node element is a
-                   start or empty tag named node carrying an id; an edge element
-                   one named edge carrying source and target; the graph start tag
-                   declares the directedness; a data start tag whose key is the
-                   declared edge-weight key takes the NEXT event as its content
-                   (a text is the weight of the most recent edge element when the
-                   innermost open node/edge start tag is an edge, anything else is
-                   simply the content of that data element and not an element of
-                   the graph); a key element for edge / weight re-declares
-                   the weight key.  None = the document is refused.
+     doc_elems   — which events are elements of the graph, EVERY event being
+                   looked at: a node element is a start or empty tag named node
+                   carrying an id; an edge element one named edge carrying source
+                   and target; the graph start tag declares the directedness; a key
+                   element for edge / weight re-declares the weight key; the text
+                   that directly follows (comments aside) the start tag of a data
+                   element whose key is the weight key is a weight datum for the
+                   most recent edge element, provided the innermost open node/edge
+                   start tag is an edge.  None = the document is refused (a parser
+                   error anywhere, a malformed element, a weight that is no number).
      el_nodes, el_edges, el_directed — the graph content of an element list: the
                    node ids in document order, the edges in document order each
                    with the last weight datum that follows it before the next
@@ -80,57 +80,54 @@ Definition ocons {X} (x : X) (o : option (list X)) : option (list X) :=
 Section Def.
   Variable parse : bytes -> option weight.
 
-  Fixpoint doc_elems (evs : list event) (wk : bytes) (last : lastel) : option (list elem) :=
+  Fixpoint doc_elems (evs : list event) (wk : bytes) (last : lastel) (exp : bool) : option (list elem) :=
     match evs with
     | [] => Some []
     | EvEof :: _ => Some []
     | EvErr :: _ => None
+    | EvComment :: rest => doc_elems rest wk last exp
+    | EvText raw :: rest =>
+      if exp then
+        match last with
+        | LEdge => match parse raw with
+                   | Some w => ocons (ElWeight w) (doc_elems rest wk last false)
+                   | None => None
+                   end
+        | _ => doc_elems rest wk last false
+        end
+      else doc_elems rest wk last false
     | EvEmpty n a :: rest =>
       if bytes_eqb n s_node then
-        match node_id a with Some id => ocons (ElNode id) (doc_elems rest wk last) | None => None end
+        match node_id a with Some id => ocons (ElNode id) (doc_elems rest wk last false) | None => None end
       else if bytes_eqb n s_edge then
-        match edge_ends a with Some (s, t) => ocons (ElEdge s t) (doc_elems rest wk last) | None => None end
+        match edge_ends a with Some (s, t) => ocons (ElEdge s t) (doc_elems rest wk last false) | None => None end
       else if bytes_eqb n s_key then
         match key_decl a with
-        | Some (Some id) => doc_elems rest id last
-        | Some None => doc_elems rest wk last
+        | Some (Some id) => doc_elems rest id last false
+        | Some None => doc_elems rest wk last false
         | None => None
         end
-      else doc_elems rest wk last
+      else doc_elems rest wk last false
     | EvStart n a :: rest =>
       if bytes_eqb n s_graph then
-        match graph_dir a with Some d => ocons (ElDirected d) (doc_elems rest wk last) | None => None end
+        match graph_dir a with Some d => ocons (ElDirected d) (doc_elems rest wk last false) | None => None end
       else if bytes_eqb n s_node then
-        match node_id a with Some id => ocons (ElNode id) (doc_elems rest wk LNode) | None => None end
+        match node_id a with Some id => ocons (ElNode id) (doc_elems rest wk LNode false) | None => None end
       else if bytes_eqb n s_edge then
-        match edge_ends a with Some (s, t) => ocons (ElEdge s t) (doc_elems rest wk LEdge) | None => None end
+        match edge_ends a with Some (s, t) => ocons (ElEdge s t) (doc_elems rest wk LEdge false) | None => None end
       else if bytes_eqb n s_key then
         match key_decl a with
-        | Some (Some id) => doc_elems rest id last
-        | Some None => doc_elems rest wk last
+        | Some (Some id) => doc_elems rest id last false
+        | Some None => doc_elems rest wk last false
         | None => None
         end
       else if bytes_eqb n s_data then
         match data_is_weight a wk with
         | None => None
-        | Some false => doc_elems rest wk last
-        | Some true =>
-          match rest with
-          | [] => Some []
-          | EvEof :: _ => Some []
-          | EvText raw :: rest' =>
-            match last with
-            | LEdge => match parse raw with
-                       | Some w => ocons (ElWeight w) (doc_elems rest' wk last)
-                       | None => None
-                       end
-            | _ => doc_elems rest' wk last
-            end
-          | _ :: rest' => doc_elems rest' wk last
-          end
+        | Some b => doc_elems rest wk last b
         end
-      else doc_elems rest wk last
-    | _ :: rest => doc_elems rest wk last
+      else doc_elems rest wk last false
+    | _ :: rest => doc_elems rest wk last false
     end.
 End Def.
 
@@ -166,7 +163,7 @@ Fixpoint el_edges (els : list elem) : list gedge :=
 
 Definition doc_content (parse : bytes -> option weight) (evs : list event)
   : option (bool * list gnode * list gedge) :=
-  match doc_elems parse evs s_weight LNone with
+  match doc_elems parse evs s_weight LNone false with
   | Some els => Some (el_directed true els, el_nodes els, el_edges els)
   | None => None
   end.
